@@ -168,6 +168,16 @@ PROPS = {
                 explanation="hash = SHA-256 of the concatenation of the parser's areas in order (loop invariant over a recursive spec function); one key per run, "
                             "public-key file and one signature file per image with fully specified contents, every signature over the image's hash and verifying under the key; "
                             "no term written to a file or to stdout mentions the secret (syntactic taint)"),
+    "C07": dict(level="other", assumptions=COMMON + ["A-CRYPTO(P-256): ecdsa VerifyingKey.from_string / verify_digest as uninterpreted functions (verify_digest returns True or raises)",
+                                                      "A-X509: cryptography (load_pem_x509_certificate, validity attributes, public_key().verify), datetime.now, base64 as assumed contracts",
+                                                      "A-HASH: sha256 uninterpreted; A-CSTRUCT: struct views by executing the real classes; the report-data offsets of the SPECIFICATION side are the "
+                                                      "Intel SGX constants (320 in the 384-byte report body, 48 + 320 in the 432-byte quote), not the repository's struct definitions",
+                                                      "scope: the three element predicates (is_valid) and the quote's reported value. The chain walk (validate_and_get_values / _parse) is the code shared "
+                                                      "with version 1; it is verified for element maps over at most four names (C06 / C16) and NOT for the unbounded names of version 2 "
+                                                      "(a bounded graph harness checks termination only, under C16); HSMCertificateV2ElementX509.get_pubkey (P-256 check) is not under contract"],
+                trusted_base=["spec/crypto_ext.py", "spec/x509_ext.py", "spec/cstruct.py", "spec/hash_ext.py"],
+                explanation="each element predicate equals the conjunction the property states for that element kind, over uninterpreted primitives; any library failure yields False",
+                extras=[_certs_v2_bounded("C07")]),
     "C13": dict(level="proof", assumptions=COMMON + [A_FW], trusted_base=TB + ["spec/firmware.py"],
                 explanation="reply fields are equated with the answers recorded in the ghost log, selectors from the firmware headers"),
 }
